@@ -407,7 +407,9 @@ def rollupRecs (σ : St) (fam : Nat) (ivs : List Iv) (avail : Iv → Bool) (dvs 
 
 /-- the operations of C04's histories -/
 inductive Op where
-  /-- flush of source family `fam` producing file number `file` (any number not handed out yet) -/
+  /-- flush of source family `fam` producing file number `file`: any (family, number) that no earlier
+  flush registered (a store hands out each file number once — C01; families of different source
+  stores are different `fam`s) -/
   | flush (fam file : Nat) (nonEmpty : Bool) (ivs : List Iv)
   /-- one run of `rollup()` of source family `fam`; `cut = some n`: the process dies after `n`
   committed records and is restarted -/
@@ -422,7 +424,7 @@ def sameMem {α : Type} [DecidableEq α] (a b : List α) : Bool :=
 
 def St.step (σ : St) : Op → St
   | .flush fam file ne ivs =>
-    if σ.next ≤ file then σ.apply (.flush (fam, file) ne ivs) else σ
+    if σ.registered.all (fun p => decide (p.1 ≠ (fam, file))) then σ.apply (.flush (fam, file) ne ivs) else σ
   | .rollup fam ivs avail dvs cut =>
     let rs := rollupRecs σ fam ivs (fun i => decide (i ∈ avail)) dvs
     σ.applyAll (match cut with | none => rs | some n => rs.take n)
